@@ -12,16 +12,17 @@
 (*                capacity truncation, surrounding blanks, one-digit tokens) or that the standard  *)
 (*                leaves to the decoder (Base64 non-zero unused bits): failure or the documented   *)
 (*                tolerant result, nothing else                                                    *)
-EXTENDS Base64, Hex, Scalable, Url, Sums, Md5, Aes, Serializer, Json, IOUtils, TLC
+EXTENDS Base64, Hex, Scalable, Url, Sums, Md5, AesObject, Serializer, Json, IOUtils, TLC
 
 Log == ndJsonDeserialize(IOEnv.TRACE)
 VARIABLES l, T
+\* (akey, the key of the one AES object of an execution, is declared in AesObject)
 ASSUME TLCSet(42, 0)
-tvars == <<svars, l, T>>
+tvars == <<svars, l, T, akey>>
 
 Ev == Log[l]
 IsEv(e) == l <= Len(Log) /\ Log[l].e = e /\ l' = l + 1
-Pure == UNCHANGED <<svars, T>>                      \* stateless codecs do not touch the serializer state
+Pure == UNCHANGED <<svars, T, akey>>                      \* stateless codecs do not touch the serializer state
 Threw(ev) == ev.exc # ""
 
 \* ---- Base64 ---------------------------------------------------------------------------------------
@@ -110,8 +111,8 @@ Need(n) == IF n < 0 THEN HUGE ELSE n                                         \* 
 SerPost(ev) == ser'.pos = ev.pos /\ ser'.mem = ev.mem /\ ev.g
 DesPost(ev) == des'.pos = ev.pos
 
-TInit == SInit /\ l = 1 /\ T = AesTables
-TReset == IsEv("Reset") /\ ser' = NoSer /\ des' = NoDes /\ res' = [op |-> "init"] /\ UNCHANGED T
+TInit == SInit /\ l = 1 /\ T = AesTables /\ AoInit
+TReset == IsEv("Reset") /\ ser' = NoSer /\ des' = NoDes /\ res' = [op |-> "init"] /\ akey' = Unkeyed /\ UNCHANGED T
 TB64Enc == IsEv("B64Enc") /\ CheckB64Enc(Ev) /\ Pure
 TB64Dec == IsEv("B64Dec") /\ CheckB64Dec(Ev) /\ Pure
 THexEnc == IsEv("HexEnc") /\ CheckHexEnc(Ev) /\ Pure
@@ -125,19 +126,38 @@ TSums == l <= Len(Log) /\ Ev.e \in {"Sum8", "Sum16", "Crc16", "Crc32"} /\ l' = l
 TMd5 == IsEv("Md5") /\ CheckMd5(Ev) /\ Pure
 TMd5Big == IsEv("Md5Big") /\ CheckMd5Big(Ev) /\ Pure
 TAes == IsEv("Aes") /\ CheckAes(Ev) /\ Pure
-TSerNew == IsEv("SerNew") /\ SerNew(Ev.kind, Ev.size, Ev.big, Ev.mem) /\ UNCHANGED T
-TSerEndian == IsEv("SerEndian") /\ SerEndian(Ev.big) /\ Ev.old = res'.old /\ UNCHANGED T
-TSerPut == IsEv("SerPut") /\ (IF Ev.n < 0 THEN SerPutHuge ELSE SerPut(Ev.form, Ev.v)) /\ Ev.ret = res'.ok /\ SerPost(Ev) /\ UNCHANGED T
-TDesNew == IsEv("DesNew") /\ DesNew(Ev.data, Ev.big) /\ UNCHANGED T
-TTransfer == IsEv("Transfer") /\ Transfer(Ev.big) /\ Ev.data = des'.data /\ UNCHANGED T
-TDesEndian == IsEv("DesEndian") /\ DesEndian(Ev.big) /\ Ev.old = res'.old /\ UNCHANGED T
-TDesGet == IsEv("DesGet") /\ DesGet(Ev.form, Need(Ev.n)) /\ Ev.ret = res'.ok /\ (res'.ok => Ev.v = res'.v) /\ Ev.g /\ DesPost(Ev) /\ UNCHANGED T
-TDesNoCopy == IsEv("DesNoCopy") /\ DesNoCopy(Need(Ev.n)) /\ Ev.ret = res'.ok /\ (res'.ok => Ev.off = res'.off) /\ DesPost(Ev) /\ UNCHANGED T
-TDesSkip == IsEv("DesSkip") /\ DesSkip(Need(Ev.n)) /\ Ev.ret = res'.ok /\ DesPost(Ev) /\ UNCHANGED T
-TDesSetPos == IsEv("DesSetPos") /\ DesSetPos(Ev.p) /\ Ev.ret = res'.ok /\ DesPost(Ev) /\ UNCHANGED T
+\* one AES object per execution: constructor, re-keying, and block operations that must answer with the current key
+TAesNew == IsEv("AesNew") /\ AoNew(Ev.key) /\ UNCHANGED <<svars, T>>
+TAesSetKey == IsEv("AesSetKey") /\ AoSetKey(Ev.key) /\ UNCHANGED <<svars, T>>
+TAesCipher == IsEv("AesCipher") /\ akey # Unkeyed /\ Ev.g /\ Ev.out = AoCipher(T, Ev.in) /\ Pure
+TAesInv == IsEv("AesInv") /\ akey # Unkeyed /\ Ev.g /\ Ev.out = AoInvCipher(T, Ev.in) /\ Pure
+\* RawDataToHexStr of n pattern bytes (byte i = i mod 251), n up to 65535: the text is far too long to spell out, but it is
+\* periodic with period 251 * (2 + |delim|) characters.  The driver reports the first period (head), the length, and the
+\* positions where the text differs from itself one period earlier (nper = how many, must be none); together with the length
+\* this determines the whole text.  The decoded text is reported the same way (period 251 bytes).
+HexBigPeriod(ev) == 251 * (2 + Len(ev.delim))
+CheckHexBig(ev) ==
+  LET D == Len(ev.delim)
+      exp == HexEnc([i \in 1..Min2(ev.n, 252) |-> (i - 1) % 251], ev.up, ev.delim)
+  IN /\ ev.len = 2 * ev.n + D * (ev.n - 1)
+     /\ Len(ev.head) = Min2(ev.len, HexBigPeriod(ev)) /\ ev.head = SubSeq(exp, 1, Len(ev.head))
+     /\ ev.nper = 0
+     /\ ev.rt => /\ ev.exc = "" /\ ev.blen = ev.n /\ ev.bnper = 0
+                 /\ ev.bhead = [i \in 1..Min2(ev.n, 251) |-> (i - 1) % 251]
+THexBig == IsEv("HexBig") /\ CheckHexBig(Ev) /\ Pure
+TSerNew == IsEv("SerNew") /\ SerNew(Ev.kind, Ev.size, Ev.big, Ev.mem) /\ UNCHANGED <<T, akey>>
+TSerEndian == IsEv("SerEndian") /\ SerEndian(Ev.big) /\ Ev.old = res'.old /\ UNCHANGED <<T, akey>>
+TSerPut == IsEv("SerPut") /\ (IF Ev.n < 0 THEN SerPutHuge ELSE SerPut(Ev.form, Ev.v)) /\ Ev.ret = res'.ok /\ SerPost(Ev) /\ UNCHANGED <<T, akey>>
+TDesNew == IsEv("DesNew") /\ DesNew(Ev.data, Ev.big) /\ UNCHANGED <<T, akey>>
+TTransfer == IsEv("Transfer") /\ Transfer(Ev.big) /\ Ev.data = des'.data /\ UNCHANGED <<T, akey>>
+TDesEndian == IsEv("DesEndian") /\ DesEndian(Ev.big) /\ Ev.old = res'.old /\ UNCHANGED <<T, akey>>
+TDesGet == IsEv("DesGet") /\ DesGet(Ev.form, Need(Ev.n)) /\ Ev.ret = res'.ok /\ (res'.ok => Ev.v = res'.v) /\ Ev.g /\ DesPost(Ev) /\ UNCHANGED <<T, akey>>
+TDesNoCopy == IsEv("DesNoCopy") /\ DesNoCopy(Need(Ev.n)) /\ Ev.ret = res'.ok /\ (res'.ok => Ev.off = res'.off) /\ DesPost(Ev) /\ UNCHANGED <<T, akey>>
+TDesSkip == IsEv("DesSkip") /\ DesSkip(Need(Ev.n)) /\ Ev.ret = res'.ok /\ DesPost(Ev) /\ UNCHANGED <<T, akey>>
+TDesSetPos == IsEv("DesSetPos") /\ DesSetPos(Ev.p) /\ Ev.ret = res'.ok /\ DesPost(Ev) /\ UNCHANGED <<T, akey>>
 
 TNext == \/ TReset \/ TB64Enc \/ TB64Dec \/ THexEnc \/ THexDecBuf \/ THexDecVec \/ TScalEnc \/ TScalDec
-         \/ TUrlEnc \/ TUrlDec \/ TSums \/ TMd5 \/ TMd5Big \/ TAes
+         \/ TUrlEnc \/ TUrlDec \/ TSums \/ TMd5 \/ TMd5Big \/ TAes \/ TAesNew \/ TAesSetKey \/ TAesCipher \/ TAesInv \/ THexBig
          \/ TSerNew \/ TSerEndian \/ TSerPut \/ TDesNew \/ TTransfer \/ TDesEndian \/ TDesGet \/ TDesNoCopy
          \/ TDesSkip \/ TDesSetPos
 TSpec == TInit /\ [][TNext]_tvars
